@@ -204,7 +204,7 @@ func (r *foRun) oracleC03() {
 
 	isVal := func(t Tok) bool {
 		if in.NilValue && t == pre {
-			return o.err == nil && o.val == nil
+			return o.err == nil && o.val == interface{}(Tok{K: "k0", ID: nilID}) // a cached nil interface
 		}
 
 		return o.err == nil && o.val == interface{}(t)
@@ -294,7 +294,7 @@ func (r *foRun) oracleC03() {
 		}
 	case nb == 1 && buildErr && state == "staleok":
 		if in.NilValue {
-			if err != nil || v != nil {
+			if err != nil || v != interface{}(Tok{K: "k0", ID: nilID}) {
 				bad("stored", "after a failed build the re-stored stale nil value must still be readable, read gives (%v, %v)", v, err)
 			}
 		} else if err != nil || v != interface{}(pre) {
